@@ -877,12 +877,49 @@ def fit_first_order(ctx):
         _fit_group(ctx, ["CG", "test", "Nelder-Mead"], ["none", "two_sided"], [1, 5, 40])
 
 
-@group(["C08"], "iface.fit/lbfgsb", _FIT_FUNCS, env="tf", kind="B", bound=_C08_BOUND + "method L-BFGS-B")
-def fit_lbfgsb(ctx):
-    if ctx.tier == "quick":
+def _have_iminuit(ctx):
+    try:
+        import iminuit  # noqa: F401
+
+        have = True
+    except ImportError:
+        have = False
+    ctx.count(key=("iminuit_importable", have), sample={"iminuit_importable": have})
+    return have
+
+
+def _fit_plan(ctx, plan, seed_offset, prefit=False, second_fit=True):
+    """plan: [(method, [constraint sets])], maxiter = library default"""
+    np.random.seed(ctx.seed + seed_offset)
+    agg = Agg()
+    with L.scratch_dir() as tmp:
+        for method, csets in plan:
+            for cset in csets:
+                cfg, config, bounds = _fit_config(ctx, cset, seed=47)
+                samples = L.make_samples(config, 800, n_data=300, n_phsp=1000, n_bg=60, weights=None, phsp_weights=None)
+                if prefit:
+                    # a Hessian-vector product costs ~1.5 s and a fit from the seeded start needs ~250 of them: start these methods 0.2% away
+                    # from a BFGS optimum (harness pre-fit; "all starting points" includes this one)
+                    with L.quiet():
+                        config.fit(data=[samples[0]], phsp=[samples[1]], bg=[samples[2]], method="BFGS", print_init_nll=False)
+                        config.set_params({k: float(v) * 1.002 for k, v in config.get_params(trainable_only=True).items()})
+                if _fit_once(ctx, agg, method, cset, None, cfg, config, bounds, samples, tmp, "first") and second_fit:
+                    _fit_once(ctx, agg, method, cset, None, cfg, config, bounds, samples, tmp, "second")
+    return agg
+
+
+@group(["C08"], "iface.fit/lbfgsb_minuit", _FIT_FUNCS, env="tf", kind="B",
+       bound=_C08_BOUND + "method L-BFGS-B (quick: sets fixed, one_sided); iminuit (quick: set two_sided, one fit; thorough: tied, two_sided, gauss + second "
+                          "fit) and minuit (thorough: tied, two_sided) - the minuit names are skipped and recorded if iminuit is not importable")
+def fit_lbfgsb_minuit(ctx):
+    quick = ctx.tier == "quick"
+    if quick:
         _fit_group(ctx, ["L-BFGS-B"], ["fixed", "one_sided"], [1, 5, 30])
     else:
         _fit_group(ctx, ["L-BFGS-B"], list(CONSTRAINT_SETS), [1, 5, None])
+    if _have_iminuit(ctx):
+        plan = [("iminuit", ["two_sided"])] if quick else [("iminuit", ["tied", "two_sided", "gauss"]), ("minuit", ["tied", "two_sided"])]
+        _fit_plan(ctx, plan, 82, second_fit=not quick).emit(ctx)
 
 
 @group(["C08"], "iface.fit/second_order", _FIT_FUNCS, env="tf", kind="B",
@@ -895,36 +932,11 @@ def fit_second_order(ctx):
         _fit_group(ctx, ["trust-ncg", "trust-krylov", "trust-exact"], ["none", "one_sided"], [None])
 
 
-@group(["C08"], "iface.fit/hessp_minuit", _FIT_FUNCS, env="tf", kind="B", tiers=("thorough",),
-       bound=_C08_BOUND + "methods Newton-CG-p, trust-ncg-p, trust-krylov-p (Hessian-vector products; sets none, gauss; started 2% off a BFGS optimum), iminuit (tied, two_sided, gauss), "
-                          "minuit (tied, two_sided) - the minuit names are skipped and recorded if iminuit is not importable")
-def fit_hessp_minuit(ctx):
-    try:
-        import iminuit  # noqa: F401
-
-        have = True
-    except ImportError:
-        have = False
-    ctx.count(key=("iminuit_importable", have), sample={"iminuit_importable": have})
-    np.random.seed(ctx.seed + 81)
-    agg = Agg()
-    with L.scratch_dir() as tmp:
-        plan = [(m, ["none", "gauss"]) for m in ("Newton-CG-p", "trust-ncg-p", "trust-krylov-p")]
-        if have:
-            plan += [("iminuit", ["tied", "two_sided", "gauss"]), ("minuit", ["tied", "two_sided"])]
-        for method, csets in plan:
-            for cset in csets:
-                cfg, config, bounds = _fit_config(ctx, cset, seed=47)
-                samples = L.make_samples(config, 800, n_data=300, n_phsp=1000, n_bg=60, weights=None, phsp_weights=None)
-                if method.endswith("-p"):
-                    # a Hessian-vector product costs ~1.5 s and a fit from the seeded start needs ~250 of them: start these methods 2% away
-                    # from a BFGS optimum (harness pre-fit; "all starting points" includes this one)
-                    with L.quiet():
-                        config.fit(data=[samples[0]], phsp=[samples[1]], bg=[samples[2]], method="BFGS", print_init_nll=False)
-                        config.set_params({k: float(v) * 1.02 for k, v in config.get_params(trainable_only=True).items()})
-                if _fit_once(ctx, agg, method, cset, None, cfg, config, bounds, samples, tmp, "first"):
-                    _fit_once(ctx, agg, method, cset, None, cfg, config, bounds, samples, tmp, "second")
-    agg.emit(ctx)
+@group(["C08"], "iface.fit/hessp", _FIT_FUNCS, env="tf", kind="B", tiers=("thorough",),
+       bound=_C08_BOUND + "methods Newton-CG-p (sets none, gauss), trust-ncg-p (none), trust-krylov-p (gauss): Hessian-vector products, ~150 s per fit even when "
+                          "started 0.2% off a BFGS optimum")
+def fit_hessp(ctx):
+    _fit_plan(ctx, [("Newton-CG-p", ["none", "gauss"]), ("trust-ncg-p", ["none"]), ("trust-krylov-p", ["gauss"])], 81, prefit=True).emit(ctx)
 
 
 # ================================================================================================ C09 (interface part)
